@@ -7,6 +7,9 @@ using namespace libecpint;
 static std::string bits(double v) { unsigned long long u; memcpy(&u, &v, 8); char b[32]; snprintf(b, sizeof b, "%016llx", u); return b; }
 int main() {
 	std::string line;
+	// every definition is also loaded into ONE basis that lives across all requests (the same element from several sets, one after the
+	// other, as a calculation with mixed ECP sets does): what that basis receives must be what a fresh basis receives
+	ECPBasis all;
 	while (std::getline(std::cin, line)) {
 		auto t = vh::split(line);
 		if (t.empty() || t[0] != "load") continue;
@@ -23,6 +26,16 @@ int main() {
 			std::cout << " centre=" << (U.center_[0] == 0.1 && U.center_[1] == 0.2 && U.center_[2] == 0.3) << " nbasis=" << b.getN() << " maxL=" << b.getMaxL() << "\n";
 			for (auto &g : U.gaussians) std::cout << "G " << g.l << " " << g.n << " " << bits(g.a) << " " << bits(g.d) << "\n";
 			for (int l = 0; l <= U.getL(); l++) for (size_t k = 3; k < t.size(); k++) { double r = vh::D(t[k]); std::cout << "V " << l << " " << bits(r) << " " << bits(U.evaluate(r, l)) << "\n"; }
+			int before = all.getN();
+			all.addECP_from_file(q, c, t[1]);
+			bool same = all.getN() == before + 1;
+			if (same) {
+				const ECP &W = all.getECP(all.getN() - 1);
+				same = W.getN() == U.getN() && W.getL() == U.getL() && W.min_exp == U.min_exp;   // (getECPCore keeps ONE count per atomic number by design: not compared)
+				for (int i = 0; same && i < U.getN(); i++) { const auto &g = U.gaussians[i], &h = W.gaussians[i]; same = g.l == h.l && g.n == h.n && g.a == h.a && g.d == h.d; }
+				for (int i = 0; same && i < LIBECPINT_MAX_L + 2; i++) same = W.l_starts[i] == U.l_starts[i];
+			}
+			if (!same) std::cout << "EXC the same definition loaded into a basis that already holds " << before << " ECPs differs from a fresh load\n";
 		} catch (std::exception &e) { std::cout << "EXC " << e.what() << "\n"; }
 		std::cout << "end\n";
 	}
